@@ -252,6 +252,9 @@ fn died(mut w: WorkerProc, saw_oversize: Option<u64>) -> Outcome {
 }
 
 /// Run all cases on `n_workers` worker processes; `on_result` is called for every case.
+/// How long a worker may take to report BEGIN for the next case (process start, table warm-up, loaded machine).
+const STARTUP_ALLOWANCE: Duration = Duration::from_secs(90);
+
 pub fn run_cases(cases: Vec<Case>, n_workers: usize, extra_args: &[String], on_result: &(dyn Fn(&Case, &Outcome) + Sync)) {
     let queue: Mutex<VecDeque<Case>> = Mutex::new(cases.into());
     let done = AtomicUsize::new(0);
@@ -270,6 +273,7 @@ pub fn run_cases(cases: Vec<Case>, n_workers: usize, extra_args: &[String], on_r
                         break;
                     }
                     let mut pending: VecDeque<Case> = batch.into();
+                    let mut not_started = 0u32;
                     while !pending.is_empty() {
                         if w.is_none() {
                             w = Some(spawn_worker(extra_args));
@@ -282,6 +286,7 @@ pub fn run_cases(cases: Vec<Case>, n_workers: usize, extra_args: &[String], on_r
                         }
                         let sent = wp.child.stdin.as_mut().map(|i| i.write_all(text.as_bytes()).and_then(|_| i.flush()).is_ok()).unwrap_or(false);
                         let mut oversize: Option<u64> = None;
+                        let mut restart = false;
                         // read results in order
                         loop {
                             let cur = match pending.front() {
@@ -290,15 +295,20 @@ pub fn run_cases(cases: Vec<Case>, n_workers: usize, extra_args: &[String], on_r
                             };
                             let budget = time_budget(cur.size());
                             let mut begun = false;
-                            let t0 = Instant::now();
+                            // The case's clock starts when the worker reports BEGIN. Until then (worker start-up,
+                            // warm-up of its tables, a loaded machine) only a generous start-up allowance applies,
+                            // and exceeding THAT is a machinery condition, never a verdict about lopdf.
+                            let mut t0 = Instant::now();
                             let mut outcome: Option<Outcome> = None;
                             let mut dead = false;
                             loop {
-                                let left = budget.checked_sub(t0.elapsed()).unwrap_or(Duration::from_millis(0));
+                                let allowed = if begun { budget } else { STARTUP_ALLOWANCE };
+                                let left = allowed.checked_sub(t0.elapsed()).unwrap_or(Duration::from_millis(0));
                                 match wp.rx.recv_timeout(left) {
                                     Ok(l) => {
                                         if l.starts_with("BEGIN ") {
                                             begun = true;
+                                            t0 = Instant::now();
                                         } else if let Some(rest) = l.strip_prefix("OVERSIZE ") {
                                             oversize = rest.trim().parse().ok();
                                         } else if let Some(rest) = l.strip_prefix("END ") {
@@ -318,6 +328,16 @@ pub fn run_cases(cases: Vec<Case>, n_workers: usize, extra_args: &[String], on_r
                                             break;
                                         }
                                     }
+                                    Err(RecvTimeoutError::Timeout) if !begun => {
+                                        not_started += 1;
+                                        if not_started >= 3 {
+                                            eprintln!("MACHINERY: a worker did not begin case {} within {:?} three times in a row", cur.id, STARTUP_ALLOWANCE);
+                                            std::process::exit(3);
+                                        }
+                                        // the worker is killed below and the same case goes to a fresh one
+                                        restart = true;
+                                        break;
+                                    }
                                     Err(RecvTimeoutError::Timeout) => {
                                         outcome = Some(Outcome {
                                             class: Class::Hang,
@@ -334,6 +354,13 @@ pub fn run_cases(cases: Vec<Case>, n_workers: usize, extra_args: &[String], on_r
                                     }
                                 }
                             }
+                            if restart {
+                                let mut x = w.take().unwrap();
+                                let _ = x.child.kill();
+                                let _ = x.child.wait();
+                                break; // the pending cases (this one first) go to a fresh worker
+                            }
+                            not_started = 0;
                             if !sent && outcome.is_none() {
                                 dead = true;
                             }
